@@ -382,17 +382,19 @@ def pytable(run, p):
             self.name, self.obj = name, obj
 
     def make_items():
-        def fn(module, tagged=False, owner=None):
+        def fn(module, tagged=False, owner=None, name=None):
             o = Callable_()
             o.__module__ = module
+            if name:
+                o.__name__ = o.__qualname__ = name           # a function or bound method has a name of its own
             if tagged:
                 o._tagged = True
             if owner is not None:
                 o.__self__ = owner()
             return o
-        return [Item('test_in_tagged_class', fn('m', owner=TaggedCase)), Item('test_tagged_method', fn('m', tagged=True, owner=PlainCase)),
-                Item('test_tagged_function', fn('m', tagged=True)), Item('test_plain_function', fn('m')),
-                Item('test_plain_method', fn('m', owner=PlainCase))]
+        return [Item(nm, fn('m', name=nm, **kw_)) for nm, kw_ in (
+            ('test_in_tagged_class', dict(owner=TaggedCase)), ('test_tagged_method', dict(tagged=True, owner=PlainCase)),
+            ('test_tagged_function', dict(tagged=True)), ('test_plain_function', {}), ('test_plain_method', dict(owner=PlainCase)))]
     is_tagged = {'test_in_tagged_class': True, 'test_tagged_method': True, 'test_tagged_function': True,
                  'test_plain_function': False, 'test_plain_method': False}
     n = 0
